@@ -65,3 +65,14 @@ package batchrelease
 //@ props C11
 //@ requires newStatus != nil
 //@ ensures falls_back: bstate(newStatus) == v1beta1.UpgradingBatchState && newStatus.CanaryStatus.BatchReadyTime == nil && newStatus.Phase == v1beta1.RolloutPhasePreparing
+
+//@ track github.com/openkruise/rollouts/pkg/util.UpdateFinalizer as updFin
+//@ define deleting(x) = x.DeletionTimestamp != nil && x.DeletionTimestamp.Time != 0
+
+//@ func (*BatchReleaseReconciler).handleFinalizer
+//@ props C18
+//@ requires r != nil && release != nil
+//@ ensures at_most_one: #updFin <= 1
+//@ ensures removes_only_when_completed: #updFin == 1 && #updFin.arg2 == util.RemoveFinalizerOpType ==> deleting(release) && release.Status.Phase == v1beta1.RolloutPhaseCompleted
+//@ ensures own_finalizer: #updFin == 1 ==> #updFin.arg3 == ReleaseFinalizer && iref(#updFin.arg1) == release
+//@ ensures never_removes_while_alive: !deleting(release) ==> #updFin == 0 || #updFin.arg2 == util.AddFinalizerOpType
